@@ -43,6 +43,37 @@ func genBytes(t *rapid.T, label string, n int, a alphabet) model.B {
 	return out
 }
 
+// meaningfulText: text that means something to somebody - addresses in spellings that are legal but not
+// canonical, names in mixed case, numbers with leading zeroes, padded and quoted text, format verbs.  The
+// protocol carries all of it as opaque octets; code that "tidies" a field changes one of these.
+var meaningfulText = []string{
+	"2001:DB8::1", "2001:db8:0:0:0:0:0:1", "2001:0db8::0001", "2001:db8::1", "FE80::1%eth0", "fe80::1%ETH0", "::ffff:10.1.2.3", "::FFFF:0A01:0203",
+	"0:0:0:0:0:0:0:1", "::1", "[2001:db8::1]:49", "010.001.002.003", "10.1.2.3", "10.1.2.3:49", " 10.1.2.3", "10.1.2.3 ", "10.1.2.3/32", "0x0a.1.2.3",
+	"Router-1.Example.COM", "router-1.example.com.", "tty0", "TTY0", "Async12", "vty 0", "console", "0", "00", "007", "+1", "-0", "1e3", "0x10", "1.50",
+	"true", "TRUE", "null", "nil", "Admin", "admin ", " admin", "ADMIN@EXAMPLE.COM", "user%40example.com", "DOMAIN\\user", "a\tb", "line\r\n", "line\n",
+	"%s%d%v", "%!s(MISSING)", "..", "../x", "~", "\"quoted\"", "'quoted'", "<b>", "&amp;", "a,b", "a;b", "a=b", "a*b", "=", "*", "\x00", "caf\u00e9",
+}
+
+// field draws the content of a text field with a one or two octet length: generated octets of a drawn
+// length, or (one time in six) a piece of meaningful text.
+func field(t *rapid.T, label string, lenOctets int, a alphabet) model.B {
+	if rapid.IntRange(0, 5).Draw(t, label+"_kind") == 0 {
+		v := rapid.SampledFrom(meaningfulText).Draw(t, label+"_text")
+		if a != alphaAny {
+			for i := 0; i < len(v); i++ {
+				if v[i] > 0x7f {
+					return model.B("cafe")
+				}
+			}
+		}
+		return model.B(v)
+	}
+	if lenOctets == 2 {
+		return genBytes(t, label, len2(t, label+"_len"), a)
+	}
+	return genBytes(t, label, len1(t, label+"_len"), a)
+}
+
 // len1 draws a length for a field with a one octet length.
 func len1(t *rapid.T, label string) int {
 	return rapid.OneOf(
@@ -104,10 +135,23 @@ func genArgs(t *rapid.T, label string, minLen int) []model.B {
 		return args
 	}
 	for i := range args {
+		if rapid.IntRange(0, 7).Draw(t, label+"_kind") == 0 {
+			args[i] = model.B(rapid.SampledFrom(meaningfulArgs).Draw(t, label+"_text"))
+			continue
+		}
 		l := rapid.OneOf(rapid.IntRange(minLen, 24), rapid.SampledFrom([]int{minLen, minLen + 1, 254, 255})).Draw(t, label+"_len")
 		args[i] = genBytes(t, label+"_arg", l, alphaASCII)
 	}
 	return args
+}
+
+// meaningfulArgs: attribute-value pairs whose values have a canonical form somewhere (addresses, numbers,
+// times, booleans), written differently.
+var meaningfulArgs = []string{
+	"addr=2001:DB8::1", "addr=2001:db8:0:0:0:0:0:1", "addr*010.001.002.003", "priv-lvl=015", "priv-lvl= 15", "priv-lvl=+15", "timeout=0060", "idletime=1e2",
+	"start_time=0123456789", "timezone=utc", "timezone=UTC ", "elapsed_time=00", "task_id=0007", "service=Shell", "service=shell ", "Service=shell", "cmd=Show",
+	"cmd=show ", "cmd-arg=<CR>", "cmd-arg=<cr>", "cmd-arg= version", "protocol=IP", "acl=#101", "noescape=TRUE", "autocmd=", "autocmd*", "callback-dialstring=+1 (555) 01",
+	"a==b", "a=*b", "a*=b", "a= b ", "==", "**", "=*", "*=", "route=10.0.0.0/08 10.1.1.1", "zonelist=a,b,,c", "bytes_in=18446744073709551616",
 }
 
 var (
@@ -155,14 +199,14 @@ func genAuthenStart(t *rapid.T) model.AuthenStart {
 		AType:   rapid.SampledFrom(authenTypes).Draw(t, "atype"),
 		Service: rapid.SampledFrom(authenServices).Draw(t, "service"),
 	}
-	a.User = genBytes(t, "user", len1(t, "user_len"), alphaASCII)
-	a.Port = genBytes(t, "port", len1(t, "port_len"), alphaASCII)
-	a.RemAddr = genBytes(t, "rem", len1(t, "rem_len"), alphaASCII)
+	a.User = field(t, "user", 1, alphaASCII)
+	a.Port = field(t, "port", 1, alphaASCII)
+	a.RemAddr = field(t, "rem", 1, alphaASCII)
 	da := alphaAny
 	if a.AType == 1 {
 		da = alphaASCII
 	}
-	a.Data = genBytes(t, "data", len1(t, "data_len"), da)
+	a.Data = field(t, "data", 1, da)
 	return a
 }
 
@@ -170,16 +214,16 @@ func genAuthenReply(t *rapid.T) model.AuthenReply {
 	return model.AuthenReply{
 		Status:    rapid.SampledFrom(authenStatuses).Draw(t, "status"),
 		Flags:     rapid.Byte().Draw(t, "flags"),
-		ServerMsg: genBytes(t, "msg", len2(t, "msg_len"), alphaAny),
-		Data:      genBytes(t, "data", len2(t, "data_len"), alphaAny),
+		ServerMsg: field(t, "msg", 2, alphaAny),
+		Data:      field(t, "data", 2, alphaAny),
 	}
 }
 
 func genAuthenContinue(t *rapid.T) model.AuthenContinue {
 	return model.AuthenContinue{
 		Flags:   rapid.Byte().Draw(t, "flags"),
-		UserMsg: genBytes(t, "umsg", len2(t, "umsg_len"), alphaASCII),
-		Data:    genBytes(t, "data", len2(t, "data_len"), alphaAny),
+		UserMsg: field(t, "umsg", 2, alphaASCII),
+		Data:    field(t, "data", 2, alphaAny),
 	}
 }
 
@@ -189,9 +233,9 @@ func genAuthorRequest(t *rapid.T) model.AuthorRequest {
 		Priv:    rapid.ByteRange(0, 15).Draw(t, "priv"),
 		AType:   rapid.SampledFrom(authenTypes0).Draw(t, "atype"),
 		Service: rapid.SampledFrom(authenServices).Draw(t, "service"),
-		User:    genBytes(t, "user", len1(t, "user_len"), alphaASCII),
-		Port:    genBytes(t, "port", len1(t, "port_len"), alphaASCII),
-		RemAddr: genBytes(t, "rem", len1(t, "rem_len"), alphaASCII),
+		User:    field(t, "user", 1, alphaASCII),
+		Port:    field(t, "port", 1, alphaASCII),
+		RemAddr: field(t, "rem", 1, alphaASCII),
 		Args:    genArgs(t, "args", 2),
 	}
 }
@@ -199,8 +243,8 @@ func genAuthorRequest(t *rapid.T) model.AuthorRequest {
 func genAuthorReply(t *rapid.T) model.AuthorReply {
 	return model.AuthorReply{
 		Status:    rapid.SampledFrom(authorStatuses).Draw(t, "status"),
-		ServerMsg: genBytes(t, "msg", len2(t, "msg_len"), alphaASCII),
-		Data:      genBytes(t, "data", len2(t, "data_len"), alphaASCII),
+		ServerMsg: field(t, "msg", 2, alphaASCII),
+		Data:      field(t, "data", 2, alphaASCII),
 		Args:      genArgs(t, "args", 2),
 	}
 }
@@ -212,9 +256,9 @@ func genAcctRequest(t *rapid.T) model.AcctRequest {
 		Priv:    rapid.ByteRange(0, 15).Draw(t, "priv"),
 		AType:   rapid.SampledFrom(authenTypes0).Draw(t, "atype"),
 		Service: rapid.SampledFrom(authenServices).Draw(t, "service"),
-		User:    genBytes(t, "user", len1(t, "user_len"), alphaASCII),
-		Port:    genBytes(t, "port", len1(t, "port_len"), alphaASCII),
-		RemAddr: genBytes(t, "rem", len1(t, "rem_len"), alphaASCII),
+		User:    field(t, "user", 1, alphaASCII),
+		Port:    field(t, "port", 1, alphaASCII),
+		RemAddr: field(t, "rem", 1, alphaASCII),
 		Args:    genArgs(t, "args", 0),
 	}
 }
@@ -222,7 +266,7 @@ func genAcctRequest(t *rapid.T) model.AcctRequest {
 func genAcctReply(t *rapid.T) model.AcctReply {
 	return model.AcctReply{
 		Status:    rapid.SampledFrom(acctStatuses).Draw(t, "status"),
-		ServerMsg: genBytes(t, "msg", len2(t, "msg_len"), alphaASCII),
-		Data:      genBytes(t, "data", len2(t, "data_len"), alphaASCII),
+		ServerMsg: field(t, "msg", 2, alphaASCII),
+		Data:      field(t, "data", 2, alphaASCII),
 	}
 }
